@@ -328,6 +328,7 @@ class Daemon(object):
         """
         serializer_id = serializers.MarshalSerializer.serializer_id
         msg_seq = 0
+        current_context.response_annotations = {}   # what an earlier call on this thread left behind is not for this peer
         try:
             try:
                 msg = protocol.recv_stub(conn, [protocol.MSG_CONNECT])
